@@ -5,10 +5,20 @@ set -e
 V=/verif
 REPO=${VERIF_REPO:-/repo}
 export GOFLAGS=-mod=mod GOPROXY=off GOSUMDB=off GOTOOLCHAIN=local CARGO_NET_OFFLINE=true
-mkdir -p $V/.cache/bin
-python3 - "$REPO" <<'PY'
+BIN=$V/.cache/bin
+OVL=$V/.cache/overlay.json
+if [ "$REPO" != "/repo" ]; then
+  # a scratch tree (seeded-change experiments): separate outputs so that checks of /repo are not disturbed
+  TAG=$(echo -n "$REPO" | md5sum | cut -c1-8)
+  BIN=$V/.cache/bin-$TAG
+  OVL=$V/.cache/overlay-$TAG.json
+fi
+mkdir -p $BIN
+export VERIF_OVL=$OVL
+python3 - "$REPO" "$OVL" <<'PY'
 import json, os, sys, glob
 repo = sys.argv[1]
+ovl = sys.argv[2]
 V = '/verif'
 rep = {}
 for f in glob.glob(V + '/harness/main/*.go'):
@@ -18,9 +28,9 @@ for d in glob.glob(V + '/harness/hooks/*'):
     pkg = os.path.basename(d).replace('__', '/')
     for f in glob.glob(d + '/*.go'):
         rep[repo + '/' + pkg + '/zz_verif_' + os.path.basename(f)] = f
-json.dump({'Replace': rep}, open(V + '/.cache/overlay.json', 'w'), indent=1)
+json.dump({'Replace': rep}, open(ovl, 'w'), indent=1)
 PY
 cd $REPO
-go build -tags verif -overlay $V/.cache/overlay.json -o $V/.cache/bin/harness ./pkg/netpol/zz_verifharness
+go build -tags verif -overlay $OVL -o $BIN/harness ./pkg/netpol/zz_verifharness
 # the untouched command-line binary (C18: exit status, stdout of the real process)
-go build -o $V/.cache/bin/k8snetpolicy ./cmd/netpolicy
+go build -o $BIN/k8snetpolicy ./cmd/netpolicy
